@@ -25,6 +25,7 @@ func AllRules() []*Rule {
 	rs = append(rs, glueRule())
 	rs = append(rs, round3Rules()...)
 	rs = append(rs, round5Rules()...)
+	rs = append(rs, flagsetRules()...)
 	return rs
 }
 
@@ -37,7 +38,7 @@ var Props = map[string]PropInfo{}
 
 func init() {
 	Props["C06"] = PropInfo{
-		Explanation: "Static rules over the resolved program (SSA + VTA call graph) decide the structural necessary conditions of the SHARED-lock interval: every exported sqlittle.DB method that reaches a pager.page implementation brackets all page-reaching calls between a tested RLock and a deferred RUnlock on the same handle (LOCK-1); RUnlock has no other caller and the driver reads only through those methods (LOCK-2); RLock invalidates cached state (LOCK-3); the unix pager requests SQLite's pending byte then shared range, non-blocking, returns both errors, releases the pending byte by defer on every exit and records/clears the shared lock correctly (PAGER); descriptors of the database file are not closed behind another handle's back (LOCK-6, known finding). LOCK-7: nothing the pager runs while it holds the SHARED lock (RLock after the lock is taken, page, CheckReservedLock) opens-and-closes or closes a descriptor, so the handle cannot drop its own lock; LOCK-8: an error from Database.RLock means the pager lock is not held (every caller returns without RUnlock on such an error). LOCK-9: opening a handle (outside any lock) reads the header page only.",
+		Explanation: "Static rules over the resolved program (SSA + VTA call graph) decide the structural necessary conditions of the SHARED-lock interval: every exported sqlittle.DB method that reaches a pager.page implementation brackets all page-reaching calls between a tested RLock and a deferred RUnlock on the same handle (LOCK-1); RUnlock has no other caller and the driver reads only through those methods (LOCK-2); RLock invalidates cached state (LOCK-3); the unix pager requests SQLite's pending byte then shared range, non-blocking, returns both errors, releases the pending byte by defer on every exit and records/clears the shared lock correctly (PAGER); descriptors of the database file are not closed behind another handle's back (LOCK-6, known finding). LOCK-7: nothing the pager runs while it holds the SHARED lock (RLock after the lock is taken, page, CheckReservedLock) opens-and-closes or closes a descriptor, so the handle cannot drop its own lock; LOCK-8: an error from Database.RLock means the pager lock is not held (every caller returns without RUnlock on such an error). LOCK-9: opening a handle (outside any lock) reads the header page only. LOCK-3 also decides that nothing of the module runs in Database.RLock before the pager's lock is requested: a validation made there is made outside the lock and clears the dirty mark.",
 		NotDecided:  "Behaviour of other processes, lock state as observed from outside, the Windows pager (not demonstrable here); the rules decide that sqlittle requests and releases the right byte ranges on the right paths.",
 	}
 }
@@ -59,11 +60,11 @@ func init() {
 		NotDecided:  "What a real writer does in each lock state and that proceeding under RESERVED yields the last committed state (true because SQLite does not touch the file before EXCLUSIVE — an assumption about SQLite).",
 	}
 	Props["C08"] = PropInfo{
-		Explanation: "LOCK-3: RLock invalidates; TXN-1: every exported db function revalidates (resolveDirty) before any page read or cache lookup; RD-TABLE: dirty is cleared only after page 1 was re-read and re-parsed and the fresh header installed; TXN-3: the page cache survives only if the change counter was established unchanged, the schema cache only if the cookie was; TXN-5: the mapping must follow the file (violated: known finding). GLUE: OpenFile/newDatabase wire the pager, the <file>-journal name, a dirty handle and a fresh cache; the locking API methods call RLock before Schema. PAGE-RO/FMT-overflow: cached pages are never written; CACHE-2: only pages parsed without error are cached; LOCK-9: opening reads the header only; DRV-10: a prepared statement keeps nothing between executions; HDR-raw: the header bytes are interpreted by parseHeader only. NARROW: every integer conversion that can change the value (a narrower target, or signed to unsigned) is proven to keep it on every path reaching it, is one of the listed intended ones, or sits in a decoder whose widths the format rules judge. HDR: the change counter and schema cookie come from header offsets 24 and 40; FRESH: a scanned []byte is a copy, so a caller cannot rewrite a cached page.",
+		Explanation: "LOCK-3: RLock invalidates; TXN-1: every exported db function revalidates (resolveDirty) before any page read or cache lookup; RD-TABLE: dirty is cleared only after page 1 was re-read and re-parsed and the fresh header installed; TXN-3: the page cache survives only if the change counter was established unchanged, the schema cache only if the cookie was; TXN-5: the mapping must follow the file (violated: known finding). GLUE: OpenFile/newDatabase wire the pager, the <file>-journal name, a dirty handle and a fresh cache; the locking API methods call RLock before Schema. PAGE-RO/FMT-overflow: cached pages are never written; CACHE-2: only pages parsed without error are cached; LOCK-9: opening reads the header only; DRV-10: a prepared statement keeps nothing between executions; HDR-raw: the header bytes are interpreted by parseHeader only. NARROW: every integer conversion that can change the value (a narrower target, or signed to unsigned) is proven to keep it on every path reaching it, is one of the listed intended ones, or sits in a decoder whose widths the format rules judge. HDR: the change counter and schema cookie come from header offsets 24 and 40; FRESH: a scanned []byte is a copy, so a caller cannot rewrite a cached page. CACHE-3: the cached sqlite_master answers exactly what the read that filled the cache answered (list and error). LOCK-3 also: nothing is validated in Database.RLock before the pager's lock is requested.",
 		NotDecided:  "History-dependent aspects: that SQLite bumps the counters as assumed and cache coherence for particular interleavings.",
 	}
 	Props["C09"] = PropInfo{
-		Explanation: "RD-TABLE: the journal gate precedes the header read on every path of every revalidation and a hot journal without a RESERVED lock is an error; JRNL-2: the journal consulted is <file>-journal; JRNL-3: a journal is hot only if it opens, carries SQLite's magic, a sane sector size, a full header and a full first sector, and everything else except a non-ENOENT open error means `no journal`; PAGER-6 for the RESERVED probe. TXN-1: the journal check of resolveDirty precedes every page read of a transaction.",
+		Explanation: "RD-TABLE: the journal gate precedes the header read on every path of every revalidation and a hot journal without a RESERVED lock is an error; JRNL-2: the journal consulted is <file>-journal; JRNL-3: a journal is hot only if it opens, carries SQLite's magic, a sane sector size, a full header and a full first sector, and everything else except a non-ENOENT open error means `no journal`; PAGER-6 for the RESERVED probe. TXN-1: the journal check of resolveDirty precedes every page read of a transaction. LOCK-3 `before the lock`: the hot-journal decision of a transaction is never made before its lock is requested.",
 		NotDecided:  "The actual crash-point semantics of a dying SQLite writer (a statement about SQLite's write ordering).",
 	}
 	Props["C15"] = PropInfo{
@@ -78,7 +79,7 @@ func init() {
 		NotDecided:  "Schedules: that database/sql calls Close, goroutine counts at run time, the second lock window between Columns and SelectDone.",
 	}
 	Props["C20"] = PropInfo{
-		Explanation: "GLOB-1: no package-level variable of the four packages is written after initialisation (stores, element/field stores, map updates, appends, escapes of mutable references, followed through module callees); GLOB-2: no handle type is reachable from a package-level variable's type; GLOB-3: the only goroutine is the driver's producer, whose sharing is ordered by DRV-3/4/5; GLOB-4: per-handle state is written only through the method receiver. DRV-9: statements never share a handle (each Prepare opens its own), so concurrently running producers of one connection work on separate handles. GLOB-1 also: a variable captured by a function literal that package initialisation keeps (the collation functions) is never written; DRV-3: no value holding a sync primitive is copied.",
+		Explanation: "GLOB-1: no package-level variable of the four packages is written after initialisation (stores, element/field stores, map updates, appends, escapes of mutable references, followed through module callees); GLOB-2: no handle type is reachable from a package-level variable's type; GLOB-3: the only goroutine is the driver's producer, whose sharing is ordered by DRV-3/4/5; GLOB-4: per-handle state is written only through the method receiver. DRV-9: statements never share a handle (each Prepare opens its own), so concurrently running producers of one connection work on separate handles. GLOB-1 also: a variable captured by a function literal that package initialisation keeps (the collation functions) is never written; DRV-3: no value holding a sync primitive is copied. ARG-RO: no function of the API packages stores into an element of a slice or map it received as a parameter or receiver (database/sql's dest excepted), so a Key shared between goroutines is never written.",
 		NotDecided:  "Races inside the standard library or mmap; a user sharing one handle; the exported mutable globals being changed by the user at run time.",
 	}
 }
@@ -129,7 +130,7 @@ func init() {
 
 func init() {
 	Props["C05"] = PropInfo{
-		Explanation: "PANIC: every index, slice, division, make, byte-order read, non-comma-ok assertion and explicit panic in the API-reachable functions (goyacc skeleton excepted) is discharged on every path reaching it (path enumeration with loop generations) by a difference-constraint prover fed with the path's branch literals, definitions, checked callee contracts, preconditions proven at every call site and field invariants proven at every store; NIL: results of functions that may return nil are dereferenced only under a non-nil test or after a validating loop; TERM-1: every call-graph cycle spends recursion budget; TERM-2: every loop is a range, progress, shrink or bounded-growth loop; CONTRACT: the contracts themselves; GRAM-0: parser value-stack indices. CACHE-2: a page that failed to parse (a typed nil pointer) never enters the cache; ERR-5. NARROW: every integer conversion that can change the value (a narrower target, or signed to unsigned) is proven to keep it on every path reaching it, is one of the listed intended ones, or sits in a decoder whose widths the format rules judge. KEY: a collation name reaches the comparison only after it was found in CollateFuncs under the very name stored (an unknown name would call a nil function). TOK-START: the tokenizer always advances (no hang on any input).",
+		Explanation: "PANIC: every index, slice, division, make, byte-order read, non-comma-ok assertion and explicit panic in the API-reachable functions (goyacc skeleton excepted) is discharged on every path reaching it (path enumeration with loop generations) by a difference-constraint prover fed with the path's branch literals, definitions, checked callee contracts, preconditions proven at every call site and field invariants proven at every store; NIL: results of functions that may return nil are dereferenced only under a non-nil test or after a validating loop; TERM-1: every call-graph cycle spends recursion budget; TERM-2: every loop is a range, progress, shrink or bounded-growth loop; CONTRACT: the contracts themselves; GRAM-0: parser value-stack indices. CACHE-2: a page that failed to parse (a typed nil pointer) never enters the cache; ERR-5. NARROW: every integer conversion that can change the value (a narrower target, or signed to unsigned) is proven to keep it on every path reaching it, is one of the listed intended ones, or sits in a decoder whose widths the format rules judge. KEY: a collation name reaches the comparison only after it was found in CollateFuncs under the very name stored (an unknown name would call a nil function). TOK-START: the tokenizer always advances (no hang on any input). NIL-ERR: a pointer or interface obtained together with an error is used only behind `err == nil`; ASSERT-OK: the value half of a comma-ok type assertion is used only where the assertion succeeded (a page of the other kind, a statement of the other kind, a non-integer rowid never go on as a zero value).",
 		NotDecided:  "The magnitude of bounds (a self-referencing interior page is re-traversed exponentially often before the budget runs out; a 2 GiB declared payload is `bounded`), stack depth of readQuoted on megabytes of doubled quotes, memory use of the page cache; mutation of a field by a callee between a length test and its use is not tracked (no such pattern on the tree).",
 	}
 	Props["C16"] = PropInfo{
@@ -137,7 +138,7 @@ func init() {
 		NotDecided:  "That accepted statements are SQLite's language; the multi-byte bareword advance in tokenize (wrong tokens or an error, never a panic).",
 	}
 	Props["C18"] = PropInfo{
-		Explanation: "FRESH: every []byte stored through a *[]byte destination or returned by a scan helper has only fresh origins (make, string conversion, append onto nil/fresh), the file pager returns fresh buffers; SCANPURE: scanning never stores into the row; PANIC/CONTRACT: every row index is guarded, type-switch defaults are dead given the producers (REC-table, ROWMAP); CONV: the constants of the documented conversions (base 10, 64 bit, 'g'/-1, the two time layouts, unix seconds) and zero values for NULL/missing columns. CONV-exact: integer text goes through the exact ParseInt first; ROWMAP: a stored NULL is not replaced by the column default. NARROW: every integer conversion that can change the value (a narrower target, or signed to unsigned) is proven to keep it on every path reaching it, is one of the listed intended ones, or sits in a decoder whose widths the format rules judge.",
+		Explanation: "FRESH: every []byte stored through a *[]byte destination or returned by a scan helper has only fresh origins (make, string conversion, append onto nil/fresh), the file pager returns fresh buffers; SCANPURE: scanning never stores into the row; PANIC/CONTRACT: every row index is guarded, type-switch defaults are dead given the producers (REC-table, ROWMAP); CONV: the constants of the documented conversions (base 10, 64 bit, 'g'/-1, the two time layouts, unix seconds) and zero values for NULL/missing columns. CONV-exact: integer text goes through the exact ParseInt first; ROWMAP: a stored NULL is not replaced by the column default. NARROW: every integer conversion that can change the value (a narrower target, or signed to unsigned) is proven to keep it on every path reaching it, is one of the listed intended ones, or sits in a decoder whose widths the format rules judge. ERR-7/ERR-4/ERR-5: a failed conversion of one destination is returned, not overwritten by the next destination's result. ARG-RO: nothing the caller hands in (keys, column lists) is rewritten.",
 		NotDecided:  "The numerical content of strconv/time conversions and float→int edge cases.",
 	}
 }
